@@ -3,8 +3,13 @@ from .. import core, wire
 
 PROP = "C08"
 MODULE = "GmqttVerif.Properties.C08"
-THEOREMS = ["GmqttVerif.Broker.will_on_unregister", "GmqttVerif.Broker.will_suppressed_by_normal_disconnect",
-            "GmqttVerif.Broker.will_cancelled_by_resume", "GmqttVerif.Broker.will_fires_once",
+THEOREMS = ["GmqttVerif.Broker.will_on_unregister",
+            "GmqttVerif.Broker.disconnect_cleans_will",
+            "GmqttVerif.Broker.will_suppressed_by_normal_disconnect",
+            "GmqttVerif.Broker.no_pending_will_online",
+            "GmqttVerif.Broker.will_cancelled_by_resume",
+            "GmqttVerif.Broker.will_fires_once_sleep",
+            "GmqttVerif.Broker.will_fires_once_terminate",
             "GmqttVerif.Broker.will_content"]
 COMPS = ["broker"]
 
